@@ -7,6 +7,11 @@ ALL = ["C%02d" % i for i in range(1, 21)]
 
 # property -> (category, technique, text, note, design_ref)
 CHECKS = {
+ "C08": ("exploration",
+   "bounded exhaustive enumeration of point sets x min_points x boundary / midpoint tolerances x metrics x the three neighbour indices against the DBSCAN / OPTICS definitions",
+   "Every row order of every 1-D multiset (<=5/6 values), every subset and ordered selection of 3x3-lattice points, generic-position images, 2x2 duplicates, cube corners, sets above the default leaf size (n = 17..20), bridge families and zero-feature matrices; min_points 2..5; tolerances at every midpoint between distinct inter-point distances (class A) and exactly at each distance (class B, decided only where exact arithmetic decides it); L1/L2/Linf; all three indices compared bit-for-bit. Oracle: core / border / noise / component structure recomputed from an f64 distance table with the open ball, OPTICS permutation + core-distance + reachability-explanation conditions of the statement.",
+   "Bounded: n <= 8 points in the exhaustive families (<= 20 in the structured ones). Zero-feature matrices are checked against the deliberate 'nothing clusters' behaviour. OPTICS reachability is checked as the statement words it (some earlier core point explains it), not for minimality.",
+   "DESIGN.md 4/C08"),
  "C05": ("exploration",
    "bounded exhaustive enumeration of all (prediction, truth) vectors over small alphabets against definitions recomputed from first principles",
    "Every pair of label vectors (bool n<=6/8; usize and String n<=4/6 over up to 4 symbols, label sets differing between the sides), every score vector over {0,.25,.5,.75,1} (plus clip-boundary values) against every truth vector with both classes, every pair of real vectors over a 6-value alphabet with non-constant truth (f32 and f64, 1 and 2 target columns), every labelled 1-D / 3x3-lattice point set for the silhouette and every small matrix for Pearson; each case re-run under permutations of both sides and through every calling form. Oracles are the documented cell formulas / textbook definitions in plain f64 (Mann-Whitney for AUC, clipped NLL for log-loss).",
